@@ -125,6 +125,7 @@ REPLAY_PLANS = {
 }
 
 REPLAY_PLANS["C15"] = dict(
+    rtwins={"quick": (8, 20), "thorough": (96, 40)},
     # (the scripts use gates outside the restricted sets, so the cover runs with all operator kinds; the world still
     #  keeps ONE Operation object per (type, parameters, operand kinds))
     cover={"quick": [cov("U1", "U1_ScriptsQ", "F_Op", 200), cov("U2", "U2_ScriptsQ", "F_Op", 160),
